@@ -11,7 +11,8 @@ import z3
 from . import sym, extract
 from .sym import SVal, SInt, SBool, SOpt, SEnum, SSeq, Unsupported, _ie, _be, is_sym, merge
 from .spec import SSet, SpecFn, empty_set
-from .engine import (PyLong, STupleSeq, HRefTable, Engine, ReturnEx, BreakEx, ContinueEx, PathEnd, PyRaise, Opaque, HList, HSetList, HSymList,
+from .engine import _handle as engine_handle
+from .engine import (HHandleList, PyLong, STupleSeq, HRefTable, Engine, ReturnEx, BreakEx, ContinueEx, PathEnd, PyRaise, Opaque, HList, HSetList, HSymList,
                      HIter, HMap, HFile, SObj, Closure, BoundMethod, Frame, Loop, Contract, call_by_names, conjuncts, MISSING, ConstFn, SUnion, HEnum, MethodOf, SuperProxy, SChars, HSink, AnyExc, HAcc)
 
 
@@ -254,6 +255,9 @@ class Interp(Engine):
         self.assign(s.target, self.binop(s.op, cur, v, s), f)
 
     def list_extend(self, lst, v, node):
+        if isinstance(lst, HHandleList):
+            lst.hseq = z3.Concat(lst.hseq, STupleSeq.of(v).seq.e)
+            return
         seq = self.to_seq(v)
         if seq is None or not isinstance(seq.length, int):
             raise Unsupported("extending a list by a sequence of symbolic length")
@@ -264,7 +268,9 @@ class Interp(Engine):
         if isinstance(lst, HRefTable):
             lst.tail.append([z3.simplify(lst.n0 + len(lst.tail) + lst.extra), x])
             return
-        if isinstance(lst, HList):
+        if isinstance(lst, HHandleList):
+            lst.hseq = z3.Concat(lst.hseq, z3.Unit(_ie(engine_handle(x))))
+        elif isinstance(lst, HList):
             lst.items.append(x)
         elif isinstance(lst, HSymList):
             lst.append(x)
@@ -595,8 +601,18 @@ class Interp(Engine):
             for k2, v2 in list(obj.__dict__["_f"].items()):
                 if isinstance(v2, (HFile, HRefTable, HIter, HSymList, HSetList, HSink)):
                     self.havoc_heap(v2, "%s.%s" % (name, k2), mutated)
+        elif isinstance(obj, HHandleList):
+            if mutated:
+                obj.hseq = z3.Const(self.fresh(name + "!hseq"), z3.SeqSort(z3.IntSort()))
         elif isinstance(obj, HList):
             if mutated:
+                if all(isinstance(x, (int, SInt)) and not isinstance(x, bool) for x in obj.items):
+                    # a list of abstract object handles mutated by the loop: from here on a list of symbolic length
+                    # (in place: aliases, e.g. the reference-table slot that already holds it, see the same object)
+                    del obj.__dict__["items"]
+                    obj.__class__ = HHandleList
+                    obj.hseq = z3.Const(self.fresh(name + "!hseq"), z3.SeqSort(z3.IntSort()))
+                    return
                 raise Unsupported("a list of concrete length (%s) is mutated inside a cut loop; model it as a symbolic list" % name)
 
     def cut_prepare(self, node, f, spec, extra_names=()):
